@@ -633,7 +633,8 @@ public:
                             auto* il = dyn_cast<InitListExpr>(ie);
                             if (!init->isValueDependent() &&
                                 ((il && il->getNumInits() <= 128) || isa<StringLiteral>(ie) ||
-                                 isa<IntegerLiteral>(ie) || isa<CXXBoolLiteralExpr>(ie)))
+                                 isa<IntegerLiteral>(ie) || isa<CXXBoolLiteralExpr>(ie) ||
+                                 isa<CharacterLiteral>(ie)))
                             {
                                 inConstInit = true;
                                 o["const_init"] = JE(init);
